@@ -35,6 +35,9 @@ def check(model, tier):
     commute.r04_3_moved_stay_wellformed(ctx)
     commute.r04_4_set_formulas(ctx)
     expressions.r13_4_required_columns(ctx, rule="R04.5")
+    from ..rules import mergeeval as _mergeeval
+
+    _mergeeval.r05_9_merge_semantics(ctx, rule="R03.4")  # an operation landed by backtracking is merged with what it meets there
     from ..rules import classlevel as _classlevel
 
     _classlevel.r_commutator_messages(ctx, "R03.M1")
